@@ -277,12 +277,18 @@ Definition cap_ok (K : Z) : bool :=
   (4 * 2 ^ ms * 5 ^ K * 2 ^ Z.max 0 (femin f + K) <=? B64 ^ 62) &&
   (4 * 10 ^ (MAX_DIGITS f + 1) <=? B64 ^ 62).
 
+Lemma mul_lt_le a A b' B : 0 <= a < A -> 0 < b' <= B -> a * b' < A * B.
+Proof.
+  intros Ha Hb. apply Z.lt_le_trans with (A * b').
+  - apply Z.mul_lt_mono_pos_r; lia.
+  - apply Z.mul_le_mono_nonneg_l; lia.
+Qed.
+
 Lemma mul3_lt_le a A b' B c' C :
   0 <= a < A -> 0 < b' <= B -> 0 < c' <= C -> a * b' * c' < A * B * C.
 Proof.
-  intros Ha Hb Hc.
-  assert (a * b' < A * B) by nia.
-  assert (0 <= a * b') by nia. nia.
+  intros Ha Hb Hc. apply mul_lt_le; [|exact Hc].
+  split; [apply Z.mul_nonneg_nonneg; lia|apply mul_lt_le; assumption].
 Qed.
 
 Theorem slow_capacity_gen K x N k w :
@@ -314,8 +320,7 @@ Proof.
   - (* the real digits: shifted by at most - femin *)
     assert (H1 : 0 < 2 ^ Z.max 0 (- beta) <= 2 ^ (- femin f)).
     { split; [apply NumFacts.pow2_pos; lia|apply NumFacts.pow2_le; unfold beta; lia]. }
-    assert (N * 2 ^ Z.max 0 (- beta) < 10 ^ (MAX_DIGITS f + 1) * 2 ^ (- femin f)) by nia.
-    lia.
+    pose proof (mul_lt_le N (10 ^ (MAX_DIGITS f + 1)) _ _ ltac:(lia) H1). lia.
   - destruct (Z_le_gt_dec beta 0) as [Hb|Hb]; [|destruct (Z_le_gt_dec Eb (femin f + 1)) as [He|He]].
     + (* no shift of the theoretical digits *)
       replace (Z.max 0 beta) with 0 by lia.
@@ -340,7 +345,9 @@ Proof.
       (* T * 2^(-femin) < 4 N * 2^(-femin) *)
       assert (HT : (2 * Mb + 1) * 5 ^ k * 2 ^ beta * 2 ^ (- femin f) < 4 * N * 2 ^ (- femin f)).
       { replace ((2 * Mb + 1) * 5 ^ k * 2 ^ beta * 2 ^ (- femin f))
-          with ((2 * Mb + 1) * (5 ^ k * 2 ^ k * g)) by (rewrite <- Z.mul_assoc, Hsplit; ring).
+          with ((2 * Mb + 1) * 5 ^ k * (2 ^ beta * 2 ^ (- femin f))) by ring.
+        rewrite Hsplit.
+        replace ((2 * Mb + 1) * 5 ^ k * (2 ^ k * g)) with ((2 * Mb + 1) * (5 ^ k * 2 ^ k * g)) by ring.
         rewrite <- H10.
         assert (0 < 10 ^ k * g) by (apply Z.mul_pos_pos; lia).
         assert ((2 * Mb + 1) * (10 ^ k * g) < (4 * 2 ^ ms) * (10 ^ k * g))
@@ -406,7 +413,7 @@ Proof.
   destruct negative_digit_comp_correct_hyps as
     (H1 & H2 & H3 & H4 & H5 & H6 & H7 & H8 & H9 & H10 & H11 & H12 & H13 & H14 & H15 & H16 & H17).
   apply (slow_capacity F64 ex_fp (-53) ex_N 0x3ff0000000000000 F64_ok rfmt_ok_F64 cap_ok_F64);
-    try assumption.
+    try assumption. Show.
   - split; [exact H6|vm_compute; reflexivity].
   - vm_compute. split; congruence.
   - lia.
